@@ -52,7 +52,12 @@ def f_falsy(a: int = 0, b: str = "", c=None, *, d: bool = False) -> list:
     return []
 
 
-CALLABLES = [f_none, f_plain, f_typed, f_kwonly, f_var, f_mixed, f_ret, f_strsink, f_falsy]
+def f_posonly(a: int, b: str = "y", /, c: float = 1.0) -> int:
+    """positional-only parameters are not addressable by keyword"""
+    return 0
+
+
+CALLABLES = [f_none, f_plain, f_typed, f_kwonly, f_var, f_mixed, f_ret, f_strsink, f_falsy, f_posonly]
 POS = [(), (1,), ("ab",), (1, "z"), ([1, 2], None)]
 CHAIN_POS = [(), (11,), ("p", "q", "r")]
 KW_KINDS = ["none", "first-compatible", "first-incompatible", "unknown", "two"]
